@@ -12,6 +12,16 @@ def _c05_count(tier):
     return int(subprocess.run(["/verif/target/hooks/release/bvh", "c05-count", "--tier", tier], capture_output=True, text=True).stdout.strip())
 
 
+def _count(cmd, tier):
+    import subprocess
+    return int(subprocess.run(["/verif/target/hooks/release/bvh", cmd, "--tier", tier], capture_output=True, text=True).stdout.strip())
+
+
+def _san():
+    import sanitizers
+    return sanitizers
+
+
 def _legs_simple(cmd, quick, thorough, **kw):
     def f(tier, seed, scratch):
         leg = dict(cmd=cmd, cases=_q(tier, quick, thorough), name=cmd)
@@ -117,6 +127,62 @@ PROPS = {
         "or entries (bigBed, also via item_count()). Don't-care: min/max when a zero-length item could take part in "
         "them.",
         assumptions=["writer/reader round trip is C01/C02's business: a failed write is counted as blocked"],
+    ),
+    "C11": dict(
+        level="exploration",
+        floor=20,
+        builds=["harness"],
+        legs=lambda tier, seed, scratch: [
+            dict(cmd="c11w", name="c11-writer-digests", cases=_q(tier, 64, 600), stall_s=60),
+            dict(cmd="c11c", name="c11-converters", cases=_q(tier, 200, 3000), stall_s=60),
+        ] + ([_san().tsan_leg("c11-tsan", "c11w", 48, tier, seed, scratch)] if tier != "quick" else []),
+        rule="A case of leg c11-writer-digests is one class = (input with 4..8 chromosomes of uneven size, the first the "
+        "heaviest; format options; pass mode), written 10 (quick) / 30 (thorough) times into an in-memory sink with runs "
+        "that differ only in workers {current-thread,1,2,3,4,8,16}, channel_size {0,1,100}, inmemory, source {iterator, "
+        "text file, index_chroms + parallel source} and the seeded delay policy installed at the cfg-hook hand-off points "
+        "{none, random sleeps/yields, slow producer, slow consumer, yield-only}; all digests must equal the first run's. "
+        "The hook trace (one global log, appended after the delay) gives per run the hand-off class of every chromosome "
+        "{file arrived before first write | mid-stream from memory | mid-stream from temp file | after the writer "
+        "closed}, an interleaving signature, and ordering-safety checks (switches in chromosome order; a chromosome "
+        "takes the file only after its predecessor returned it). Leg c11-converters: write_bg / write_bed with 1..16 "
+        "threads, inmemory on/off and delay policies vs write_bg_singlethreaded / write_bed_singlethreaded, byte "
+        "equality. Thorough adds the same writer workload in a ThreadSanitizer build (hooks in sanitizer mode: delays "
+        "only, no shared state). Non-trivial = >= 2 successful runs compared and >= 2 chromosomes; distinct by class.",
+        assumptions=[
+            "interleavings are sampled (delay policies, OS scheduler), not enumerated; the evidence reports the distinct signatures and hand-off classes actually observed",
+            "runs whose parallel source is refused by index_chroms are skipped and counted (C18's business)",
+        ],
+        technique="runtime monitoring: differential digests across schedules + hook trace monitor + ThreadSanitizer",
+    ),
+    "C12": dict(
+        level="exploration",
+        floor=50,
+        builds=["harness"],
+        legs=lambda tier, seed, scratch: [
+            dict(cmd="c12x", name="c12-exhaustive-call-interleavings", cases=_count("c12x-count", tier), stall_s=60),
+            dict(cmd="c12t", name="c12-threaded-stress", cases=_q(tier, 4000, 60000), stall_s=30),
+            _san().miri_c12_leg(tier, seed, scratch),
+        ] + ([_san().tsan_leg("c12-tsan", "c12t", 4000, tier, seed, scratch)] if tier != "quick" else []),
+        rule="Leg 1 (exhaustive, seed-independent): every producer history of k writes with sizes from {0,1,3,4096,8192,70000} "
+        "for k <= 3, reduced size sets for k = 4,5 (quick) / 4,5,6 (thorough), then drop, crossed with every consumer "
+        "program at call granularity -- switch after any of the k+2 producer steps then await_real_file; or no switch, "
+        "len() then expect_closed_write -- with is_real_file_ready() polled at every position, x {in-memory, temp-file} "
+        "x destination {plain, BufWriter}; every shared-memory access of TempFileBuffer is exactly one public call, so "
+        "orderings of calls on one thread enumerate the interleavings at that granularity. Oracle: destination bytes = "
+        "concatenation of the writes (self-describing payload: missing / duplicated / reordered ranges are named), "
+        "len() = bytes written, readiness true iff after drop. Leg 2: producer and consumer on real threads with "
+        "seeded delays at the cfg-hook points inside update/Drop/switch/await; interleaving signature and hand-off "
+        "class from the trace; await must never return before the producer's drop; a stalled case is re-run alone 3x "
+        "before it counts as no_progress. Leg 3: Miri (-Zmiri-many-seeds, 8 quick / 64 thorough) on a reduced threaded "
+        "workload with R = BufWriter<..> as in bigtools (data races, UB, deadlock are definite verdicts). Thorough adds "
+        "leg 2 in a ThreadSanitizer build. Non-trivial = at least one write; distinct by history / by interleaving "
+        "signature.",
+        exhaustive=False,
+        assumptions=[
+            "weak-memory reorderings are explored only as far as Miri's and the hardware's schedulers happen to",
+            "Miri runs the in-memory and temp-file variants with isolation disabled",
+        ],
+        technique="runtime monitoring: exhaustive call-order enumeration + delay-injected stress with trace + Miri + ThreadSanitizer",
     ),
     "C07": dict(
         level="exploration",
